@@ -10,6 +10,7 @@ var (
 	_ ColumnOf[Nullable[string]] = (*ColNullable[string])(nil)
 	_ StateEncoder               = (*ColNullable[string])(nil)
 	_ StateDecoder               = (*ColNullable[string])(nil)
+	_ Preparable                 = (*ColNullable[string])(nil)
 
 	_ = ColNullable[string]{
 		Values: new(ColStr),
@@ -75,6 +76,16 @@ func (c ColNullable[T]) EncodeState(b *Buffer) {
 	if s, ok := c.Values.(StateEncoder); ok {
 		s.EncodeState(b)
 	}
+}
+
+// Prepare ensures Preparable column propagation.
+func (c *ColNullable[T]) Prepare() error {
+	if v, ok := c.Values.(Preparable); ok {
+		if err := v.Prepare(); err != nil {
+			return errors.Wrap(err, "prepare values")
+		}
+	}
+	return nil
 }
 
 func (c ColNullable[T]) Type() ColumnType {
